@@ -18,9 +18,22 @@ def gen_C09():
     out.append("Definition tag_delims : list str := [%s]." % "; ".join(C.cstr(d) for d in delims))
     pats = [tp._compile_take_until_pattern("'", True).pattern,
             tp._compile_take_until_pattern('"', True).pattern,
-            tp._compile_take_until_pattern("'\"", False).pattern,
             tp._compile_take_until_pattern("'\"%", False).pattern]
     out.append("Definition take_until_patterns : list str := [%s]." % "; ".join(C.cstr(p) for p in pats))
+    # the call sites of take_until_any / the stop-character tuples inside _detailed_tag_parser, as written in the source
+    import ast
+    import inspect
+    import textwrap
+    fn = ast.parse(textwrap.dedent(inspect.getsource(tp._detailed_tag_parser))).body[0]
+    calls, consts = [], []
+    for node in ast.walk(fn):
+        if isinstance(node, ast.Call) and isinstance(node.func, ast.Name) and node.func.id == "take_until_any":
+            calls.append((node.lineno, node.col_offset, ast.unparse(node)))
+        if isinstance(node, ast.Assign) and len(node.targets) == 1 and isinstance(node.targets[0], ast.Name) \
+                and node.targets[0].id in ("QUOTE_CHARS", "QUOTE_OR_PERCENT"):
+            consts.append((node.lineno, node.targets[0].id + " = " + ast.unparse(node.value)))
+    out.append("Definition take_until_calls : list str := [%s]." % "; ".join(C.cstr(c) for _, _, c in sorted(calls)))
+    out.append("Definition scan_stop_chars : list str := [%s]." % "; ".join(C.cstr(c) for _, c in sorted(consts)))
     sp = [c for c in range(0x110000) if chr(c).isspace()]
     out.append("Definition py_space_chars : list N := [%s]%%N." % "; ".join(str(c) for c in sp))
     tt = base.TokenType
